@@ -249,9 +249,10 @@ theorem Units.all_pairs_convert :
   · rename_i f hf; exact ⟨f, hf, of_decide_eq_true this⟩
   · simp at this
 
-/-- `Units.consistent` modulo the seconds-per-year entry: with `365 · 86400` in place of the
-tabulated value the table of the current tree is consistent … -/
-theorem Units.consistent_with_exact_second :
+/-- NOT coverage of the clause (private, not counted as an obligation): what a repair of the
+seconds-per-year entry would restore — with `365 · 86400` in place of the tabulated value the table
+would be consistent … -/
+private theorem Units.consistent_with_exact_second :
     Consistent (withSecond Generated.Units.table (365 * 86400)) := by decide +kernel
 
 /-- … and with the tabulated value it is not (known finding F10b: `increments["second"]` is
@@ -281,8 +282,9 @@ theorem unit_clauses_partial :
       ∃ c, convertD Generated.Units.table m i cap = some c ∧ r ≤ c) :=
   ⟨cap_respected _, cap_respected_dist _ Units.table_positive⟩
 
-/-- and the full unit half holds for the table with the exact seconds-per-year entry -/
-theorem unit_clauses_with_exact_second :
+/-- NOT coverage (private): the full unit half would hold for a table with the exact
+seconds-per-year entry — a table the code does not have -/
+private theorem unit_clauses_with_exact_second :
     UnitClauses (withSecond Generated.Units.table (365 * 86400)) := by
   refine ⟨fun m i s cap xs xc hs hc =>
       rate_invariance _ Units.consistent_with_exact_second m i s cap xs xc hs hc,
@@ -292,6 +294,136 @@ theorem unit_clauses_with_exact_second :
       sub := by decide +kernel, gas := by decide +kernel, gpt := by decide +kernel,
       args := { gwp := by decide +kernel, ng := by decide +kernel, pres := by decide +kernel,
                 temp := by decide +kernel } }
+
+/-! ### what holds of the REAL table, for every quantity -/
+
+/-- drift factor of the current table on the SI-defined units: per-second input is exact, every
+other increment comes out multiplied by 31 536 000 / 31 540 000 -/
+def driftK (i : String) : Rat := if i = "second" then 1 else 7884 / 7885
+
+theorem driftK_pos (i : String) : 0 < driftK i := by
+  unfold driftK; split <;> norm_num
+
+/-- for ALL q: a rate of `q` g/s written in an SI-defined unit converts to exactly
+`driftK i · q` g/s with the table of the current tree (`Units.si_drift` + `convert_linear`) -/
+theorem si_drift_all (m i : String) (q x : Rat) (hx : toUnit m i q = some x) :
+    convertD Generated.Units.table m i x = some (driftK i * q) := by
+  obtain ⟨g, s, hg, hs, rfl⟩ := toUnit_eq_some hx
+  have hm : m ∈ ["gram", "kilogram", "tonne"] := by
+    rcases siGrams_cases hg with ⟨rfl, _⟩ | ⟨rfl, _⟩ | ⟨rfl, _⟩ <;> simp
+  have hi : i ∈ ["second", "minute", "hour", "day"] := by
+    rcases siSeconds_cases hs with ⟨rfl, _⟩ | ⟨rfl, _⟩ | ⟨rfl, _⟩ | ⟨rfl, _⟩ <;> simp
+  have h1 := Units.si_drift m hm i hi
+  have ht : toUnit m i 1 = some (1 / g * s) := by simp [toUnit, hg, hs]
+  simp only [ht, Option.bind_eq_bind, Option.bind_some, bind] at h1
+  rw [show q / g * s = q * (1 / g * s) by ring, convert_linear, h1]
+  simp only [Option.map_some, driftK]
+  congr 1
+  split <;> ring
+
+theorem capAt_scale (k cap x : Rat) (hk : 0 < k) : capAt (k * cap) (k * x) = k * capAt cap x := by
+  unfold capAt
+  by_cases h : x > cap
+  · have : k * x > k * cap := mul_lt_mul_of_pos_left h hk
+    simp [h, this]
+  · have : ¬ (k * x > k * cap) := by
+      intro hh
+      exact h (lt_of_mul_lt_mul_left hh (le_of_lt hk))
+    simp [h, this]
+
+theorem unit_conversion_real (m i : String) (q x : Rat) (hx : toUnit m i q = some x) :
+    unitConversion Generated.Units.table m i x = some (driftK i * q) := by
+  unfold unitConversion
+  split
+  · rename_i h
+    have hg : Generated.Units.table.gramName = "gram" := by decide +kernel
+    have hs : Generated.Units.table.secondName = "second" := by decide +kernel
+    rw [hg, hs] at h
+    obtain ⟨rfl, rfl⟩ := h
+    have : toUnit "gram" "second" q = some q := by
+      unfold toUnit siGrams siSeconds; simp
+    rw [this] at hx
+    cases hx
+    simp [driftK]
+  · exact si_drift_all m i q x hx
+
+/-- the clause "g/s whatever the unit" as it holds of the code's own table, for every population:
+both kinds of rate source return `driftK i` times the capped physical rate … -/
+theorem real_table_rates (m i : String) (s cap xs xc : Rat)
+    (hs : toUnit m i s = some xs) (hc : toUnit m i cap = some xc) :
+    sampleRate Generated.Units.table m i xs xc = some (driftK i * capAt cap s)
+    ∧ distRate Generated.Units.table m i xs xc = some (driftK i * capAt cap s) := by
+  constructor
+  · unfold sampleRate
+    simp only [unit_conversion_real m i s xs hs, unit_conversion_real m i cap xc hc,
+      Option.bind_eq_bind, Option.bind_some]
+    rw [capAt_scale _ _ _ (driftK_pos i)]
+  · unfold distRate
+    exact si_drift_all m i _ _ (toUnit_capAt hc hs)
+
+/-- … hence files written in SI units with the SAME time unit give identical rates (exact unit
+invariance across gram/kilogram/tonne), and per-second files give the physical rates -/
+theorem same_increment_same_rates (m₁ m₂ i : String) (s cap x₁ c₁ x₂ c₂ : Rat)
+    (h₁ : toUnit m₁ i s = some x₁) (hc₁ : toUnit m₁ i cap = some c₁)
+    (h₂ : toUnit m₂ i s = some x₂) (hc₂ : toUnit m₂ i cap = some c₂) :
+    sampleRate Generated.Units.table m₁ i x₁ c₁ = sampleRate Generated.Units.table m₂ i x₂ c₂
+    ∧ distRate Generated.Units.table m₁ i x₁ c₁ = distRate Generated.Units.table m₂ i x₂ c₂ := by
+  have a := real_table_rates m₁ i s cap x₁ c₁ h₁ hc₁
+  have b := real_table_rates m₂ i s cap x₂ c₂ h₂ hc₂
+  exact ⟨a.1.trans b.1.symm, a.2.trans b.2.symm⟩
+
+theorem per_second_rates_exact (m : String) (s cap xs xc : Rat)
+    (hs : toUnit m "second" s = some xs) (hc : toUnit m "second" cap = some xc) :
+    sampleRate Generated.Units.table m "second" xs xc = some (capAt cap s)
+    ∧ distRate Generated.Units.table m "second" xs xc = some (capAt cap s) := by
+  have h := real_table_rates m "second" s cap xs xc hs hc
+  simpa [driftK] using h
+
+/-- exact size of known finding F10d: one mscf converts to 353147/353100 of what 1000 cubic feet
+convert to (per second, hence for every increment by `Units.all_pairs_convert`'s factors) -/
+theorem Units.mscf_drift :
+    (do let a ← factor Generated.Units.table "mscf" "second"
+        let b ← factor Generated.Units.table "cubic feet" "second"
+        pure (a / (1000 * b))) = some ((353147 : Rat) / 353100) := by decide +kernel
+
+/-! ### independent definitions of the non-SI units (tolerance-bounded table obligations) -/
+
+/-- `|x − exact| ≤ tol · exact` -/
+def relWithin (x exact tol : Rat) : Bool :=
+  decide (x - exact ≤ tol * exact) && decide (exact - x ≤ tol * exact)
+
+def perUnitOf (l : List Metric) (k : String) : Option Rat := (lookupM l k).map (·.perUnit)
+
+/-- check of one table (in or out metrics) against the legal / SI definitions:
+pound = 0.45359237 kg, foot = 0.3048 m, liter = 1/1000 m³ -/
+def metricsWithin (l : List Metric) (tol : Rat) : Bool :=
+  (match perUnitOf l "pound" with
+    | some x => relWithin x ((1000000 : Rat) / (45359237 / 100000)) tol | none => false)
+  && (match perUnitOf l "cubic feet" with
+    | some x => relWithin x (1 / ((381 : Rat) / 1250) ^ 3) tol | none => false)
+  && (perUnitOf l "liter" == some 1000) && (perUnitOf l "cubic meter" == some 1)
+
+def mscfWithin (l : List Metric) (tol : Rat) : Bool :=
+  match perUnitOf l "mscf" with
+  | some x => relWithin x (1 / (1000 * ((381 : Rat) / 1250) ^ 3)) tol | none => false
+
+/-- pound, cubic feet, liter, cubic meter (both tables) agree with their independent definitions
+within 2·10⁻⁶ (the rounding of six tabulated digits); week = 365/7 per year within 2·10⁻⁶,
+month = 12 and year = 1 exactly.  A typo in one of these entries breaks this theorem. -/
+theorem Units.non_si_entries_within_tolerance :
+    metricsWithin Generated.Units.table.inMetrics (2 / 1000000) = true
+    ∧ metricsWithin Generated.Units.table.outMetrics (2 / 1000000) = true
+    ∧ (match lookupR Generated.Units.table.increments "week" with
+        | some w => relWithin w ((365 : Rat) / 7) (2 / 1000000) | none => false) = true
+    ∧ lookupR Generated.Units.table.increments "month" = some 12
+    ∧ lookupR Generated.Units.table.increments "year" = some 1 := by decide +kernel
+
+/-- mscf is tabulated to four digits only: within 2·10⁻⁴ of 1/(1000 ft³) but NOT within 2·10⁻⁶
+(the root of known finding F10d) -/
+theorem Units.mscf_entry_coarse :
+    mscfWithin Generated.Units.table.inMetrics (2 / 10000) = true
+    ∧ mscfWithin Generated.Units.table.outMetrics (2 / 10000) = true
+    ∧ mscfWithin Generated.Units.table.inMetrics (2 / 1000000) = false := by decide +kernel
 
 /-! ### replicate independence -/
 
@@ -344,11 +476,20 @@ theorem seeds_distinct_counterexample :
   decide
 
 
-/-! ### extending a generator folder -/
+/-! ### extending a generator folder
+
+`initRun` takes the seed index the loops use as a parameter (`idx`); the instance for the current
+source tree is `Generated.EmisSeed.seedIdx`, extracted from the two loops of `initialize_emissions`.
+The theorems need `idx fresh i nSaved n = i` on the simulation numbers a run writes; for the
+extracted expressions that is the table obligation `EmisSeed.seed_index_is_simulation_number`. -/
 
 /-- every stored simulation number carries the scenario of *its own* seed -/
 def FolderGood {σ : Type} (seedAt : Nat → Nat) (scen : Nat → σ) (F : Folder σ) : Prop :=
   ∀ i, i < F.nSaved → F.files i = some (scen (seedAt i))
+
+/-- the loops seed simulation `i` with entry `i` of the seed file -/
+def IndexIsSimulationNumber (idx : SeedIdx) : Prop :=
+  ∀ (fresh : Bool) (i nSaved n : Nat), i ∈ writes fresh nSaved n → idx fresh i nSaved n = i
 
 theorem mem_writes {fresh : Bool} {nSaved n i : Nat} :
     i ∈ writes fresh nSaved n ↔ (if fresh then i < n else nSaved ≤ i ∧ i < n) := by
@@ -360,55 +501,88 @@ theorem mem_writes {fresh : Bool} {nSaved n i : Nat} :
     · simp; omega
   · simp
 
-theorem initRun_good {σ : Type} (seedAt : Nat → Nat) (scen : Nat → σ) (fresh : Bool) (n : Nat)
-    (F : Folder σ) (h : FolderGood seedAt scen F) : FolderGood seedAt scen (initRun seedAt scen fresh n F) := by
+/-- table obligation: the index expressions extracted from BOTH loops of `initialize_emissions`
+denote the simulation number itself (an extension loop indexing with `i - n_simulation_saved`
+breaks this theorem) -/
+theorem EmisSeed.seed_index_is_simulation_number :
+    IndexIsSimulationNumber Generated.EmisSeed.seedIdx := by
+  intro fresh i nSaved n h
+  rw [mem_writes] at h
+  unfold Generated.EmisSeed.seedIdx Generated.EmisSeed.seedIdxFresh Generated.EmisSeed.seedIdxExtend
+  cases fresh <;> simp only [Bool.false_eq_true, ↓reduceIte] at h ⊢ <;> omega
+
+theorem initRun_good {σ : Type} (idx : SeedIdx) (hidx : IndexIsSimulationNumber idx)
+    (seedAt : Nat → Nat) (scen : Nat → σ) (fresh : Bool) (n : Nat)
+    (F : Folder σ) (h : FolderGood seedAt scen F) :
+    FolderGood seedAt scen (initRun idx seedAt scen fresh n F) := by
   intro i hi
   simp only [initRun] at hi ⊢
   by_cases hw : i ∈ writes fresh F.nSaved n
-  · simp [hw]
+  · simp [hw, hidx fresh i F.nSaved n hw]
   · simp only [hw, ↓reduceIte]
     apply h
     rw [mem_writes] at hw
-    cases fresh <;> simp_all <;> split at hi <;> omega
+    cases fresh
+    · simp only [Bool.false_eq_true, ↓reduceIte] at hi hw
+      split at hi <;> omega
+    · simp only [↓reduceIte] at hi hw
+      omega
 
-/-- seed-index property of the extension (`extendScenarios`): after ANY history of fresh runs,
-extensions and smaller runs on one generator folder, simulation number `i` holds the scenario
-generated under `emis_preseed_val[i]` -/
-theorem extension_seed_index {σ : Type} (seedAt : Nat → Nat) (scen : Nat → σ)
+/-- seed-index property of the extension: after ANY history of fresh runs, extensions and smaller
+runs on one generator folder, simulation number `i` holds the scenario generated under
+`emis_preseed_val[i]` — provided the loops index the seed file with the simulation number -/
+theorem extension_seed_index {σ : Type} (idx : SeedIdx) (hidx : IndexIsSimulationNumber idx)
+    (seedAt : Nat → Nat) (scen : Nat → σ)
     (hist : List (Bool × Nat)) (F : Folder σ) (h : FolderGood seedAt scen F) :
-    FolderGood seedAt scen (runHistory seedAt scen hist F) := by
+    FolderGood seedAt scen (runHistory idx seedAt scen hist F) := by
   induction hist generalizing F with
   | nil => exact h
-  | cons r rest ih => exact ih _ (initRun_good seedAt scen r.1 r.2 F h)
+  | cons r rest ih => exact ih _ (initRun_good idx hidx seedAt scen r.1 r.2 F h)
 
-theorem extension_seed_index_from_empty {σ : Type} (seedAt : Nat → Nat) (scen : Nat → σ)
+/-- … for the index expressions of the current source tree -/
+theorem extension_seed_index_generated {σ : Type} (seedAt : Nat → Nat) (scen : Nat → σ)
     (hist : List (Bool × Nat)) :
-    FolderGood seedAt scen (runHistory seedAt scen hist Folder.empty) :=
-  extension_seed_index seedAt scen hist _ (fun i hi => by simp [Folder.empty] at hi)
+    FolderGood seedAt scen (runHistory Generated.EmisSeed.seedIdx seedAt scen hist Folder.empty) :=
+  extension_seed_index _ EmisSeed.seed_index_is_simulation_number seedAt scen hist _
+    (fun i hi => by simp [Folder.empty] at hi)
 
-/-- a non-fresh run leaves the pickles of the pre-existing simulation numbers untouched -/
-theorem extension_preserves_existing {σ : Type} (seedAt : Nat → Nat) (scen : Nat → σ) (n : Nat)
-    (F : Folder σ) (i : Nat) (hi : i < F.nSaved) :
-    (initRun seedAt scen false n F).files i = F.files i := by
+/-- the model CAN be wrong: with the extension loop indexing by `i - n_simulation_saved` a fresh
+run with 2 simulations extended to 4 stores under simulation 2 the scenario of seed 0 -/
+theorem extension_wrong_index_counterexample :
+    ¬ FolderGood (fun i => i) id
+        (runHistory (fun fresh i nSaved _ => if fresh then i else i - nSaved) (fun i => i) id
+          [(true, 2), (false, 4)] Folder.empty) := by
+  intro h
+  have := h 2 (by decide)
+  revert this
+  decide
+
+/-- a non-fresh run leaves the pickles of the pre-existing simulation numbers untouched
+(whatever the index expression) -/
+theorem extension_preserves_existing {σ : Type} (idx : SeedIdx) (seedAt : Nat → Nat) (scen : Nat → σ)
+    (n : Nat) (F : Folder σ) (i : Nat) (hi : i < F.nSaved) :
+    (initRun idx seedAt scen false n F).files i = F.files i := by
   have : i ∉ writes false F.nSaved n := by rw [mem_writes]; simp; omega
   simp [initRun, this]
 
-/-- the seed trace of a run: simulation `i` is generated under `seedAt i`, nothing else -/
+/-- the seed trace of a run under the extracted index: simulation `i` is generated under
+`seedAt i`, nothing else -/
 theorem seedTrace_index (seedAt : Nat → Nat) (fresh : Bool) (nSaved n : Nat) :
-    ∀ p ∈ seedTrace seedAt fresh nSaved n, p.2 = seedAt p.1 := by
+    ∀ p ∈ seedTrace Generated.EmisSeed.seedIdx seedAt fresh nSaved n, p.2 = seedAt p.1 := by
   intro p hp
-  obtain ⟨i, _, rfl⟩ := List.mem_map.mp hp
-  rfl
+  obtain ⟨i, hi, rfl⟩ := List.mem_map.mp hp
+  simp only [EmisSeed.seed_index_is_simulation_number fresh i nSaved n hi]
 
 /-- hence, in a folder grown by any history, simulation numbers with different seeds hold
 different scenarios as soon as different seeds give different scenarios -/
 theorem extension_distinct {σ : Type} (seedAt : Nat → Nat) (scen : Nat → σ)
     (hinj : Function.Injective scen) (hist : List (Bool × Nat)) (i j : Nat)
-    (hi : i < (runHistory seedAt scen hist Folder.empty).nSaved)
-    (hj : j < (runHistory seedAt scen hist Folder.empty).nSaved) (hs : seedAt i ≠ seedAt j) :
-    (runHistory seedAt scen hist Folder.empty).files i
-      ≠ (runHistory seedAt scen hist Folder.empty).files j := by
-  have hg := extension_seed_index_from_empty seedAt scen hist
+    (hi : i < (runHistory Generated.EmisSeed.seedIdx seedAt scen hist Folder.empty).nSaved)
+    (hj : j < (runHistory Generated.EmisSeed.seedIdx seedAt scen hist Folder.empty).nSaved)
+    (hs : seedAt i ≠ seedAt j) :
+    (runHistory Generated.EmisSeed.seedIdx seedAt scen hist Folder.empty).files i
+      ≠ (runHistory Generated.EmisSeed.seedIdx seedAt scen hist Folder.empty).files j := by
+  have hg := extension_seed_index_generated seedAt scen hist
   rw [hg i hi, hg j hj]
   intro h
   exact hs (hinj (Option.some.inj h))
@@ -423,23 +597,29 @@ theorem genSeeds_prefix (old draws : List Nat) (nSim : Nat) :
 
 /-- non-vacuity: fresh run with 2, extension to 4, smaller run, extension to 5 -/
 example :
-    let F := runHistory (fun i => 10 * i + 7) id [(true, 2), (false, 4), (false, 1), (false, 5)] Folder.empty
+    let F := runHistory Generated.EmisSeed.seedIdx (fun i => 10 * i + 7) id
+      [(true, 2), (false, 4), (false, 1), (false, 5)] Folder.empty
     F.nSaved = 5 ∧ F.files 3 = some 37 ∧ F.files 4 = some 47 ∧ F.files 5 = none
-    ∧ seedTrace (fun i => 10 * i + 7) false 2 4 = [(2, 27), (3, 37)] := by
+    ∧ seedTrace Generated.EmisSeed.seedIdx (fun i => 10 * i + 7) false 2 4 = [(2, 27), (3, 37)] := by
   decide +kernel
 
 /-! ### verdict -/
 
-/-- C16 minus the two clauses that fail today: all generation clauses, the cap clauses for the
-current table, linearity, and the complete unit half once the seconds-per-year entry is exact -/
+/-- C16 minus the two clauses that fail today, everything about the code's OWN tables: all
+generation clauses; both cap clauses; the exact form of the unit clause that does hold (rates are
+`driftK i` times the capped physical rate for every population, so SI units sharing a time unit
+agree exactly and per-second units are exact); folder histories keep simulation `i` on seed `i` -/
 theorem C16_partial :
     GenClauses
     ∧ ((∀ (m i : String) (s cap r : Rat), sampleRate Generated.Units.table m i s cap = some r →
           ∃ c, unitConversion Generated.Units.table m i cap = some c ∧ r ≤ c)
       ∧ (∀ (m i : String) (d cap r : Rat), distRate Generated.Units.table m i d cap = some r →
           ∃ c, convertD Generated.Units.table m i cap = some c ∧ r ≤ c))
-    ∧ UnitClauses (withSecond Generated.Units.table (365 * 86400)) :=
-  ⟨gen_clauses, unit_clauses_partial, unit_clauses_with_exact_second⟩
+    ∧ (∀ (m i : String) (s cap xs xc : Rat), toUnit m i s = some xs → toUnit m i cap = some xc →
+          sampleRate Generated.Units.table m i xs xc = some (driftK i * capAt cap s)
+          ∧ distRate Generated.Units.table m i xs xc = some (driftK i * capAt cap s))
+    ∧ IndexIsSimulationNumber Generated.EmisSeed.seedIdx :=
+  ⟨gen_clauses, unit_clauses_partial, real_table_rates, EmisSeed.seed_index_is_simulation_number⟩
 
 /-- the full statement is false of the code as it stands (F10b, F10c) -/
 theorem C16_counterexample : ¬ C16_statement := fun h => unit_invariance_counterexample h.2.1
